@@ -318,7 +318,19 @@ def check_sample(ctx):
         byp = g.path_avoiding(g.entry.id, {g.node_of(an[0]).id}, {g.node_of(wl).id if wl is not None else g.node_of(wr[0]).id})
         byg = g.path_avoiding(g.entry.id, {g.node_of(an[0]).id}, {g.node_of(gens[0]).id})
         src = wl is not None and norm.U(wl.iter).endswith(".generate_rows()")
-        opens = [w for w in own_nodes(t.node) if isinstance(w, ast.With) and any("workload_file" in norm.U(i.context_expr) and "'w'" in norm.U(i.context_expr) for i in w.items)]
+        # the file written is the file analysed: open(<path>, 'w') with the very path expression that is handed to the analysis
+        env_ = single_defs(t)
+
+        def _path(e):
+            e = norm.subst(e, env_)
+            while isinstance(e, ast.Call) and isinstance(e.func, ast.Name) and e.func.id in ("str", "Path") and len(e.args) == 1:
+                e = e.args[0]
+            return norm.U(e)
+        target = _path(an[0].args[1]) if len(an[0].args) >= 2 else (_path(norm.kwarg(an[0], "workload")) if norm.kwarg(an[0], "workload") is not None else None)
+        opens = [w for w in own_nodes(t.node) if isinstance(w, ast.With) and any(
+            isinstance(i.context_expr, ast.Call) and norm.is_name(i.context_expr.func, "open") and len(i.context_expr.args) >= 2 and isinstance(i.context_expr.args[1], ast.Constant)
+            and i.context_expr.args[1].value == "w" and target is not None and _path(i.context_expr.args[0]) == target for i in w.items)
+            and any(wr[0] is x for x in ast.walk(w))]
         ok = byp is None and byg is None and src and len(opens) == 1
         d = f"the workload is generated on every path to the analysis: {byg is None}; and written (mode 'w') on every path: {byp is None and len(opens) == 1}"
     ctx.ob(7, "K3", "workload i is always generated from its seed and written before it is analysed (an existing file is never reused)", ok, t, wr[0] if wr else t.node,
